@@ -13,6 +13,7 @@ import (
 	"sync/atomic"
 	"time"
 
+	"github.com/pion/ice/v4/internal/verifhook"
 	"github.com/pion/logging"
 )
 
@@ -135,6 +136,7 @@ func (c *udpMuxedConn) readPacket(
 }
 
 func (c *udpMuxedConn) WriteTo(buf []byte, rAddr net.Addr) (n int, err error) {
+	verifhook.Yield("mr.w_start")
 	if c.isClosed() {
 		return 0, io.ErrClosedPipe
 	}
@@ -157,6 +159,7 @@ func (c *udpMuxedConn) WriteTo(buf []byte, rAddr net.Addr) (n int, err error) {
 }
 
 func (c *udpMuxedConn) WriteToAddrPort(buf []byte, rAddr netip.AddrPort) (n int, err error) {
+	verifhook.Yield("mr.w_start")
 	if c.isClosed() {
 		return 0, io.ErrClosedPipe
 	}
@@ -171,6 +174,7 @@ func (c *udpMuxedConn) WriteToAddrPort(buf []byte, rAddr netip.AddrPort) (n int,
 // registerAddress registers addr with the mux the first time this conn
 // writes to it.
 func (c *udpMuxedConn) registerAddress(addr netip.AddrPort) {
+	verifhook.Yield("mr.contains")
 	if !c.containsAddress(addr) {
 		c.addAddress(addr)
 	}
@@ -239,6 +243,7 @@ func (c *udpMuxedConn) getAddresses() []netip.AddrPort {
 }
 
 func (c *udpMuxedConn) addAddress(addr netip.AddrPort) {
+	verifhook.Yield("mr.append")
 	c.mu.Lock()
 	c.addresses = append(c.addresses, addr)
 	c.mu.Unlock()
